@@ -208,7 +208,7 @@ pub fn run(ctx: &Ctx, rep: &mut Report) {
     rep.prop(
         "streams",
         "proptest: sequences of 0..300 (thorough 600) messages over all type codes (2/5/15/31 boosted; fixed types as 2432-byte frames, type 31 contiguous with finite floats), optional trailing fragment < 28 bytes; oracle = count, per-message spec comparison, equality with stand-alone decoding, Record::messages agreement, and the truncation model at every cut point (streams <= 9000 bytes) or +-40 bytes around selected boundaries plus 64 random points; non-trivial = >= 2 messages of >= 2 kinds with a type-31 message not in last position",
-        ctx.tier.pick(8_000, 600_000),
+        ctx.tier.pick(20_000, 600_000),
         move || stream_strategy(max_len),
         classify,
         check_stream,
